@@ -13,8 +13,23 @@ C15 run <checkHeader> <unauthAct> <noMatchAct> <errAct> <conn> <user> <mailFrom>
    | an <in> <ok> <out>  auth_normalize(in)
    | F <empty> <ok> <addr>*   one From field: value empty?, mail.ParseAddressList ok?, addresses
    | S <empty> <ok> <addr>?   one Sender field: value empty?, mail.ParseAddress ok?, address
+   | O <mask> <order>    directives NOT written in the configuration block (bits: 1 check_header, 2 unauth_action,
+                         4 no_match_action, 8 err_action, 16 auth_normalize, 32 from_normalize, 64 user_to_email,
+                         128 prepare_email): the model takes `Init`'s default for them
    | N … | H … | G … | GF … | GS …    replay material for the Go side (ignored here)
 ```
+Table kind F = the real `table.file`: `U F <err> <style>`, the `u` groups are the entry lines of the
+file in file order (a key may repeat).
+
+```
+C15 file <head and groups of the base case, U F …, u = entry lines at initialisation>
+   | I <present>         the check is initialised (file there?)
+   | W <style> | l <key> <val>* …   the file is written with these entry lines
+   | D                   deleted      | B   damaged (unparsable)      | R   reload
+   | Q …                 a probe for the Go side (ignored here)
+```
+Answer: what the table holds at the end, `<key>=<val>,<val>;…` for the keys of all lines in order of first
+appearance (`-` when there is none).
 actions: r(eject) q(uarantine) i(gnore) b(oth).  Answer: `<sender-stage> <body-stage>`, each
 `<reason|ok>/<reject><quarantine>`.
 -/
@@ -31,7 +46,7 @@ def groups (toks : List String) : List (List String) :=
 structure TabSpec where
   kind : String := "I"
   err : Bool := false
-  rows : List (Str × List Str) := []
+  rows : List (Str × List Str) := []      -- kind F: the entry lines of the file
 
 structure Spec where
   prep : TabSpec := {}
@@ -40,6 +55,7 @@ structure Spec where
   an : List (Str × Option Str) := []
   fromFields : List FromField := []      -- reversed while parsing
   senderFields : List SenderField := []
+  omitted : Nat := 0
 
 def bool? : String → Option Bool
   | "0" => some false
@@ -54,7 +70,7 @@ def action? : String → Option FailAction
   | _ => none
 
 def kindOk (k : String) : Bool :=
-  k == "I" || k == "T" || k == "S" || k == "M" || k == "L" || k == "O"
+  k == "I" || k == "T" || k == "S" || k == "M" || k == "L" || k == "O" || k == "F"
 
 def parseGroup (s : Spec) (g : List String) : Option Spec :=
   match g with
@@ -65,6 +81,14 @@ def parseGroup (s : Spec) (g : List String) : Option Spec :=
   | ["U", k, e] => do
     if !kindOk k then none
     pure { s with u2e := { s.u2e with kind := k, err := (← bool? e) } }
+  | ["P", k, e, _] => do
+    if !kindOk k then none
+    pure { s with prep := { s.prep with kind := k, err := (← bool? e) } }
+  | ["U", k, e, _] => do
+    if !kindOk k then none
+    pure { s with u2e := { s.u2e with kind := k, err := (← bool? e) } }
+  | ["O", m, _] => do
+    pure { s with omitted := (← m.toNat?) }
   | "p" :: k :: vs => do
     pure { s with prep := { s.prep with rows := s.prep.rows ++ [(← unhexRunes? k, ← vs.mapM unhexRunes?)] } }
   | "u" :: k :: vs => do
@@ -114,6 +138,9 @@ def TabSpec.table (t : TabSpec) : Table :=
       match split k with
       | .ok (mbox, _) => .ok (some mbox)
       | .error _ => if t.kind == "O" then .ok (some k) else .ok none)
+  else if t.kind == "F" then
+    -- table.file: every line with the key contributes its values
+    .multi (fun k => if t.err then .error () else .ok (fileLookup t.rows k))
   else
     .multi (fun k => if t.err then .error () else .ok ((find t.rows k).getD []))
 
@@ -171,8 +198,64 @@ def actionName (r : Reason) : String :=
 def expectEntCond : String := "ent == domain || ent == \"*\" || ent == addr"
 def expectHdrCalls : String := "Get:From Values:From Values:Sender Get:Sender"
 
+/-! ### histories of a table file -/
+
+structure HState where
+  st : Option FileState := none          -- none: before `I`
+  initLines : Lines := []
+  pending : Option Lines := none         -- the write being collected
+  keys : List Str := []
+  bad : Bool := false
+
+def HState.flush (h : HState) : HState :=
+  match h.pending, h.st with
+  | some ls, some st => { h with st := some (st.step (.write ls)), pending := none }
+  | _, _ => h
+
+def HState.key (h : HState) (k : Str) : HState :=
+  if h.keys.contains k then h else { h with keys := h.keys ++ [k] }
+
+def HState.op (h : HState) (o : FileOp) : HState :=
+  let h := h.flush
+  match h.st with
+  | some st => { h with st := some (st.step o) }
+  | none => { h with bad := true }
+
+def histGroup (h : HState) (g : List String) : HState :=
+  match g with
+  | "u" :: k :: vs =>
+    match h.st, unhexRunes? k, vs.mapM unhexRunes? with
+    | none, some k, some vs => { h.key k with initLines := h.initLines ++ [(k, vs)] }
+    | _, _, _ => { h with bad := true }
+  | ["I", p] =>
+    match h.st, bool? p with
+    | none, some p => { h with st := some (FileState.init (if p then some h.initLines else none)) }
+    | _, _ => { h with bad := true }
+  | "W" :: _ =>
+    let h := h.flush
+    if h.st.isNone then { h with bad := true } else { h with pending := some [] }
+  | "l" :: k :: vs =>
+    match h.pending, unhexRunes? k, vs.mapM unhexRunes? with
+    | some ls, some k, some vs => { h.key k with pending := some (ls ++ [(k, vs)]) }
+    | _, _, _ => { h with bad := true }
+  | ["D"] => h.op .delete
+  | ["B"] => h.op .damage
+  | ["R"] => h.op .reload
+  | _ => h     -- configuration and replay material of the base case, probes
+
+def dumpTable (ls : Lines) (keys : List Str) : String :=
+  if keys.isEmpty then "-" else
+  ";".intercalate (keys.map fun k => hexRunes k ++ "=" ++ ",".intercalate ((fileLookup ls k).map hexRunes))
+
+def handleFile (rest : List (List String)) : String :=
+  let h := (rest.foldl histGroup ({} : HState)).flush
+  match h.bad, h.st with
+  | false, some st => dumpTable st.loaded h.keys
+  | _, _ => "bad-op"
+
 def handle (toks : List String) : String :=
   match groups toks with
+  | ("file" :: _) :: rest => handleFile rest
   | ["run", ch, ua, na, ea, conn, user, mf] :: rest =>
     match bool? ch, action? ua, action? na, action? ea, bool? conn, unhexRunes? user, unhexRunes? mf,
           rest.foldlM parseGroup ({} : Spec) with
@@ -183,13 +266,16 @@ def handle (toks : List String) : String :=
       let fnQueries := mf :: (fromFields.flatMap (fun f => f.parse.getD [])) ++
         (senderFields.filterMap (·.parse))
       if fnQueries.any (fun q => (find s.fn q).isNone) || (find s.an user).isNone then "bad-op missing-primitive" else
-      let cfg : Cfg := {
-        checkHeader := ch
-        emailPrepare := s.prep.table
-        userToEmail := s.u2e.table
-        unauthAction := ua, noMatchAction := na, errAction := ea
+      -- the configuration block: a directive that is not written is `none` (Init's default applies)
+      let written {α : Type} (bit : Nat) (v : α) : Option α := if s.omitted.testBit bit then none else some v
+      let dirs : Directives := {
+        checkHeader := written 0 ch
+        unauthAction := written 1 ua, noMatchAction := written 2 na, errAction := written 3 ea
+        userToEmail := written 6 s.u2e.table
+        emailPrepare := written 7 s.prep.table
         fromNorm := fun a => (find s.fn a).join
         authNorm := fun a => (find s.an a).join }
+      let cfg : Cfg := dirs.cfg
       let c := if conn then some user else none
       let hdr : Header := { fromFields := fromFields, senderFields := senderFields }
       s!"{showRes (checkSender cfg c mf)} {showRes (checkBody cfg c hdr)}"
